@@ -55,7 +55,7 @@ def config(draw):
             "jobname": "job"}
 
 
-INLINE = ["w", "ref", "ref", "w", "ref", "cite", "fn", "idx", "b", "tt", "ref", "w"]
+INLINE = ["w", "ref", "ref", "w", "ref", "cite", "fn", "idx", "b", "tt", "ref", "w", "fnc", "fnc"]
 
 
 def exclude_known(case):
@@ -274,6 +274,19 @@ def check(case):
         fmarks = [(href, attrs) for tag, href, text, attrs in scans[n].links()
                   if tag == "a" and attrs.get("class") == "footnote"]
         ftexts = [m for m, inh in streams[n] if m[-1] == "f"]
+        # marks of the constant "Ibid." footnotes (several footnotes with equal text) carry no marker
+        # word: each must still land on a footnote text; the others are paired with the markers
+        paired = []
+        for href, attrs in fmarks:
+            sp = split_href(href, base)
+            txt = None if sp is None or sp[1] is None else rd.element_text_by_id(scans[sp[0] or n], sp[1])
+            if txt is not None and "Ibid." in txt and not any(m in txt for m in ftexts):
+                feats.add("equal-footnotes")
+                continue
+            if txt is None and sp is not None and sp[1] is not None and len(fmarks) > len(ftexts):
+                return fail("footnote-mark-target", dict(ctx, file=n, href=href, marker="(constant footnote)"), feats)
+            paired.append((href, attrs))
+        fmarks = paired
         if len(fmarks) != len(ftexts):
             return fail("footnote-mark-count", dict(ctx, file=n, marks=len(fmarks), texts=ftexts), feats)
         for (href, attrs), m in zip(fmarks, ftexts):
